@@ -74,8 +74,29 @@ done
     m.setdefault("detected_by", {}).update(out); json.dump(m, open(p, "w"), indent=1)
     sh("rm -rf %s" % tmp)
     return 0
+def cmd_table():
+    """markdown table of the seeded changes and which check reports them (spliced into DESIGN.md 0.6)"""
+    rows = ["| seed | what the change does | needs | reported by (quick check) |", "|------|----------------------|-------|---------------------------|"]
+    for id in sorted(os.listdir(SEED)):
+        _, m = meta(id)
+        if not m: continue
+        det = []
+        for pr, r in sorted(m.get("detected_by", {}).items()):
+            if r.get("exit") == 1 and r.get("violations"):
+                det.append("%s%s" % (pr, " (no failing input found: broken obligation only)" if all("no-failing-input" in v for v in r["violations"]) else " with a failing input"))
+            else: det.append("%s: NOT reported" % pr)
+        cell = lambda t: (t or "").replace("|", "/").replace("\n", " ")
+        rows.append("| %s | %s | %s | %s |" % (id, cell(m.get("summary"))[:260], cell(m.get("needs") or m.get("mechanism"))[:200], "; ".join(det) or "not run"))
+    text = "\n".join(rows) + "\n"
+    d = open("/verif/DESIGN.md").read()
+    a, b = "<!-- seeded-table-begin -->\n", "<!-- seeded-table-end -->\n"
+    if a in d and b in d:
+        d = d[:d.index(a) + len(a)] + text + d[d.index(b):]
+        open("/verif/DESIGN.md", "w").write(d)
+    print(text)
 if __name__ == "__main__":
     c = sys.argv[1]
+    if c == "table": cmd_table(); sys.exit(0)
     if c == "import": cmd_import(sys.argv[2])
     elif c == "verify": cmd_verify(sys.argv[2:])
     elif c == "run": sys.exit(cmd_run(sys.argv[2], sys.argv[3:]))
